@@ -3,6 +3,7 @@
 package vc
 
 import (
+	"regexp"
 	"fmt"
 	"go/types"
 	"strings"
@@ -169,8 +170,17 @@ func (s *StructV) with(i int, v Value) *StructV {
 }
 
 // sortName builds a sort name for a Go type.
+var aliasWord = regexp.MustCompile(`\b(byte|rune)\b`)
+
 func sortName(t types.Type) string {
 	s := types.TypeString(t, func(p *types.Package) string { return p.Name() })
+	// byte and uint8 (rune and int32) are the same type: one name, one memory
+	s = aliasWord.ReplaceAllStringFunc(s, func(w string) string {
+		if w == "byte" {
+			return "uint8"
+		}
+		return "int32"
+	})
 	s = strings.NewReplacer("*", "P", "[]", "Sl_", "[", "A", "]", "_", " ", "", "{", "_", "}", "_", ";", "_", ",", "_", "(", "_", ")", "_", "/", "_").Replace(s)
 	return smt.Sanitize(s)
 }
